@@ -198,5 +198,17 @@ PROPS["C11"] = {
     "assumptions": ["positive sample durations for the sync-start theorem of the segmenter's reference track", "sums of durations below 2^32 for Fragmentify's uint32 accumulator"],
 }
 
+
+PROPS["C04"] = {
+    "level": "proof",
+    "technique": "Lean 4 proof (the structural container walk is total on every byte string, linear in steps, and yields at most |input|/8 boxes) + model-vs-decoder correspondence on hostile inputs + isolated-worker exploration for the runtime clauses (panic, wall time, allocation) that no model can exhibit",
+    "level_text": "PARTIAL by nature. Proved (Props/C04.lean, for every byte string): the transcription of DecodeHeaderSR / DecodeBoxSR / DecodeContainerChildrenSR / the DecodeFileSR loop (Model/Walk.lean) never leaves the input, spends at least 8 input bytes per box, so produces at most |input|/8 boxes, and terminates within |input|+2 nested steps (fuel sufficiency + monotonicity). Tie: on mutated inputs that both decoders accept and Encode reproduces, the model's box skeleton must equal the decoded tree's. NOT provable in a model and decided by exploration instead: absence of Go panics, the time bound and the allocation bound of the real decoders, Info and both encoders; every input runs every entry point (DecodeFile with/without lazy mdat, ISM and start-on-moof flags, DecodeFileSR, DecodeBox, DecodeBoxSR), Info at three detail levels plus a per-box level, Encode/EncodeSW in both modes, in re-exec'd worker processes under RLIMIT_AS with a watchdog; time budget 1 s + 5 us/byte, allocation budget K*len + 16 MiB (K = 16 decode, 64 encode, 400 Info); suspected time/memory violations are re-run alone before they are reported.",
+    "level_note": "Trusted: Lean kernel, allowed axioms; the walk model is validated by correspondence only on inputs the library itself round-trips (the decoders are lenient about leaf header sizes, which a header-size based model cannot follow); runtime.MemStats.TotalAlloc and wall clock as measured in the worker.",
+    "trusted": ["Model/Walk.lean hand transcription of mp4/boxsr.go + mp4/container.go (structure only)", "harness workers: RLIMIT_AS, watchdog, TotalAlloc accounting"],
+    "unmodelled": ["every leaf decoder, Info method and encoder (runtime behaviour: exploration only)", "io.Reader short reads / failing readers", "inputs above 300 kB"],
+    "partial": ["no-panic, time and memory clauses are decided by exploration (about 290 000 inputs quick, 2 000 000 thorough), not by proof; the theorem bounds only the structural walk"],
+    "assumptions": [],
+}
+
 # reasons for properties that are not claimed (yet)
 NOT_CLAIMED = {}
